@@ -6,6 +6,8 @@ R2  replay under seek skips note-ons only: the isSeek flag is used solely in a c
 R3  flag restore pairing: after looping is switched off for the replay every return of seek() restores the saved value.
 R4  a target beyond the song length rewinds and returns 0; the replay starts from the rewound position.
 R5  loop state after a seek: the loop counts as passed only for targets at or after the loop END time.
+R6  reset completeness: every MIDIchannel field stored (transitively) by a channel-event handler is stored (transitively) by
+    realTime_ResetState, the song-begin hook a replay starts with; otherwise the value of a later part of the song survives a backward seek.
 """
 from ..core import *
 from ..logic import *
@@ -19,6 +21,7 @@ RULES = [
     Rule('C08.R3', 'every return of the sequencer seek restores the loop-enabled flag', 2),
     Rule('C08.R4', 'targets beyond the end rewind and return 0; replay starts from the rewound position', 3),
     Rule('C08.R5', 'the loop is treated as passed only for targets at or beyond the loop end', 1),
+    Rule('C08.R6', 'the state reset that precedes the replay restores every channel field a channel event can change', 20),
 ]
 EXPLANATION = ('CFG order / dominance rules over opn2_positionSeek, BW_MidiSequencer::seek and processEvents. Thin claim: necessary conditions of "seek equals '
                'linear playback"; equality of position, controller state and subsequent events is not decided.')
@@ -177,4 +180,62 @@ def analyse(facts, tier):
     ok = tb is not None and tb[0].get('k') == 'BinaryOperator' and tb[0]['op'] in ('>=', '>') and strip(tb[0]['l']).get('id') == sk.params[0]['id'] and short(strip(tb[0]['r']).get('n', '')) == 'm_loopEndTime'
     obls.append(Obl('C08.R5', sk.name, 'temporaryBroken = target >= loop end', tb[1] if tb else sk.loc, 'discharged' if ok else 'finding',
                     why=show(tb[0]) if ok else 'loop is marked as passed by %s: a target inside the loop makes the next loop end jump to the song start' % (show(tb[0]) if tb else 'nothing')))
+    obls += r6(facts)
     return obls
+
+
+
+EVENT_HANDLERS = ('realTime_Controller', 'realTime_PatchChange', 'realTime_PitchBend', 'realTime_BankChangeLSB', 'realTime_BankChangeMSB', 'realTime_BankChange',
+                  'realTime_ChannelAfterTouch', 'realTime_NoteAfterTouch')
+
+
+def channel_stores(facts, fn, depth=0, seen=None):
+    """MIDIchannel fields stored by fn or by the OPNMIDIplay / MIDIchannel methods it calls (NoteInfo members are per-note state, not channel state)"""
+    seen = seen if seen is not None else set()
+    out = {}
+    if fn.name in seen:
+        return out
+    seen.add(fn.name)
+    for b, j, st in fn.cfg.stmts():
+        for x in walk(st['s']):
+            ap = assign_parts(x)
+            tgt = ap[0] if ap else (x['e'] if is_incdec(x) else None)
+            if tgt is not None:
+                t = strip(tgt)
+                while isinstance(t, dict) and t.get('k') == 'ArraySubscriptExpr':
+                    t = strip(t['b'])
+                if isinstance(t, dict) and t.get('k') == 'MemberExpr' and 'MIDIchannel::' in t['n'] and 'NoteInfo' not in t['n']:
+                    out.setdefault(short(t['n']), st['loc'])
+            if short(callee_name(x)) in ('memset', 'memcpy') and x.get('a'):
+                for y in walk(x['a'][0]):
+                    if y.get('k') == 'MemberExpr' and 'MIDIchannel::' in y['n'] and 'NoteInfo' not in y['n']:
+                        out.setdefault(short(y['n']), st['loc'])
+            cn = callee_name(x)
+            if cn and depth < 3 and cn in facts.fns and ('MIDIchannel::' in cn and 'NoteInfo' not in cn or (depth == 0 and cn.startswith('OPNMIDIplay::') and short(cn) in ('setRPN', 'updatePortamento'))):
+                for k2, v2 in channel_stores(facts, facts.fns[cn][0], depth + 1, seen).items():
+                    out.setdefault(k2, v2)
+    return out
+
+
+def r6(facts):
+    out = []
+    written = {}
+    for h in EVENT_HANDLERS:
+        for fn in facts.fns.get('OPNMIDIplay::' + h, []):
+            for fld, loc in channel_stores(facts, fn).items():
+                written.setdefault(fld, (h, loc))
+    rs = facts.fn('OPNMIDIplay::realTime_ResetState')
+    reset = channel_stores(facts, rs)
+    if len(written) < 20:
+        raise build.AnalysisBroken('C08.R6: only %d channel fields found to be written by the event handlers' % len(written))
+    # the song-begin hook is wired to realTime_ResetState
+    sb = [f for f in facts.all_fns() if f.name == 'rtSongBegin']
+    wired = bool(sb) and any(short(callee_name(x)) == 'realTime_ResetState' for b, ex, loc in sb[0].cfg.exprs() for x in calls_in(ex))
+    out.append(Obl('C08.R6', 'rtSongBegin', 'song-begin hook resets the synthesizer state', sb[0].loc if sb else rs.loc, 'discharged' if wired else 'finding',
+                   why='calls realTime_ResetState()' if wired else 'the song-begin hook does not reach realTime_ResetState'))
+    for fld, (h, loc) in sorted(written.items()):
+        ok = fld in reset
+        out.append(Obl('C08.R6', rs.name, 'channel field ' + fld, rs.loc, 'discharged' if ok else 'finding',
+                       why='written by %s, restored by the reset' % h if ok else
+                       '%s stores MIDIchannel::%s (%s) but the reset that precedes a replay never restores it: after a backward seek the channel keeps the value from later in the song' % (h, fld, loc.rsplit('/', 1)[-1])))
+    return out
